@@ -33,6 +33,8 @@ module Z :
 
   val min : coq_Z -> coq_Z -> coq_Z
 
+  val of_nat : nat -> coq_Z
+
   val of_N : coq_N -> coq_Z
 
   val pos_div_eucl : positive -> coq_Z -> coq_Z * coq_Z
